@@ -1,9 +1,10 @@
 //@ tu: libxcm/tp/tls/xcm_tp_btls.c
 //@ enforce: btls_update
 //@ props: C04 C16
-//@ expect: postcondition>=5 canary=6
+//@ expect: postcondition>=5 canary=7
 /* btls_update with the REAL conn_update and server_update inlined */
 #include "_unit.h"
+#define ST(x) (xvu_in_st == (int)conn_state_##x)
 void harness(void)
 {
     xv_ghost_havoc();
@@ -18,6 +19,7 @@ void harness(void)
     if (upd && xvu.bell_mods == b0 && L == 0) XV_CANARY("server socket, nothing awaited");
     if (upd && xvu.bell_mods == b0 + 1 && !xvu.bell_ringing && L == 0) XV_CANARY("connection, quiet");
     if (!upd && xvu.bell_mods == b0 + 1 && xvu.bell_ringing) XV_CANARY("connection, bell");
-    if (upd && xvu.bell_mods == b0 + 1 && L == XU_RS && xvu.pending_calls == p0 + 2) XV_CANARY("connection, both directions handed down");
-    if (upd && xvu.bell_mods == b0 + 1 && L == XU_R && xvu.pending_calls == p0 + 1) XV_CANARY("connection, after a refused receive");
+    if (upd && xvu.bell_mods == b0 + 1 && L == XU_RS && ST(ready)) XV_CANARY("connection, both directions handed down");
+    if (upd && xvu.bell_mods == b0 + 1 && L == XU_R && ST(ready) && xvu_in_c == XU_R && !xvu_has_pending) XV_CANARY("connection, after a refused receive");
+    if (upd && xvu.bell_mods == b0 + 1 && L == XU_R && ST(ready) && xvu_in_c == XU_R && xvu_has_pending) XV_CANARY("connection, after a refused receive, part of a record buffered: quiet");
 }
